@@ -101,6 +101,10 @@ def check_case(ctx, t, v, nodes, names):
 
 
 def run(ctx):
+    # conversions must not depend on the time zone of the process: the whole check runs in a zone that is not UTC
+    import os, time
+    os.environ['TZ'] = 'JST-9'
+    time.tzset()
     md.selfcheck()
     names = C05.prim_names()
     q = ctx.quick
@@ -143,6 +147,9 @@ def run(ctx):
 
 
 def replay(ctx, rep):
+    import os, time
+    os.environ['TZ'] = 'JST-9'
+    time.tzset()
     c = rep['case']
     if c.get('leg') == 'A':
         run(ctx)
